@@ -32,17 +32,19 @@ import (
 	"github.com/thanos-io/thanos/pkg/verifhook/vfkit"
 )
 
-// vfc13Pieces: the adversarial alphabet restricted to what UTF-8 label validation accepts
-// (no empty piece, no invalid byte). Every piece is one rune, so piece sequences <-> strings is 1:1.
+// vfc13Pieces: the adversarial alphabet restricted to what UTF-8 label validation accepts (no empty
+// piece, no invalid byte), without three pieces no key format treats specially ("1", "-", "/") and with
+// the usual escape characters `\` and "%" added (an escaping scheme is only as good as its treatment of
+// its own escape character). Every piece is one rune, so piece sequences <-> strings is 1:1.
 func vfc13Pieces() []string {
 	var out []string
 	for _, p := range vfkit.Alphabet {
-		if p == "" || !utf8.ValidString(p) {
+		if p == "" || !utf8.ValidString(p) || p == "1" || p == "-" || p == "/" {
 			continue
 		}
 		out = append(out, p)
 	}
-	return out
+	return append(out, `\`, "%")
 }
 
 // vfc13Strings returns all strings of exactly k pieces.
@@ -197,7 +199,7 @@ func vfc13Legacy(it vfc13Item) bool {
 	return true
 }
 
-const vfc13Separators = ":;=~!\",{}|"
+const vfc13Separators = ":;=~!\",{}|\\%"
 
 func vfc13NonTrivial(it vfc13Item) bool {
 	if strings.ContainsAny(it.Name, vfc13Separators) || strings.ContainsAny(it.Value, vfc13Separators) {
@@ -467,7 +469,7 @@ func TestVF_C13(t *testing.T) {
 	r.Rule(fmt.Sprintf("items = postings (block,compression,name,value), expanded postings (block,compression,1..2 matchers), series refs, and single matchers for the matchers cache; "+
 		"names/values over the %d-piece adversarial alphabet %q restricted to Prometheus UTF-8 validation (names non-empty); "+
 		"bounded-exhaustive blocks: P name+value <= 3 pieces x 2 blocks x 2 compressions (thorough: also = 4 pieces x 1); EP one matcher name+value <= 3 pieces x 4 types x 2 compressions, two matchers of <= 3 pieces in total x 16 type pairs (quick: over the 12 separator-heavy pieces); M name+value <= 3 (quick) / <= 4 (thorough) pieces x 4 types; S 20000 refs x 2 blocks; "+
-		"then random items up to 7 pieces and boundary-shift sibling families; oracle: the REAL key function is evaluated for every item and keys are grouped per key space (index caches: P+EP+S together; matchers cache) - a second different, constructible item on a key is a violation, replayed end to end through RemoteIndexCache/InMemoryIndexCache/LruMatchersCache; "+
+		"then random items up to 7 pieces, boundary-shift sibling families, and cross-kind siblings (the matcher text of every small EP item cut into postings name/value at every position); oracle: the REAL key function is evaluated for every item and keys are grouped per key space (index caches: P+EP+S together; matchers cache) - a second different, constructible item on a key is a violation, replayed end to end through RemoteIndexCache/InMemoryIndexCache/LruMatchersCache; "+
 		"distinct non-trivial = item containing at least one of %q", len(pieces), pieces, vfc13Separators))
 	r.Assume("blake2b-256 digests of different pre-images differ (a digest collision would be reported as a key collision of class other-collision)")
 	r.Assume("collisions are only counted between items that can exist: valid UTF-8 names/values, regexp matchers that compile")
@@ -599,8 +601,33 @@ func TestVF_C13(t *testing.T) {
 				}
 			}
 		},
+		// 5: cross-kind siblings: the text the code itself builds for an expanded-postings item, cut at every
+		// position into a (name, value) postings item (with and without dropping the character at the cut)
+		func(c int) {
+			for total := 1; total <= 2; total++ {
+				for nl := 1; nl <= total; nl++ {
+					for _, name := range s[nl] {
+						for _, value := range s[total-nl] {
+							for _, mt := range vfc13Types {
+								ep := vfc13Item{Kind: "EP", Comp: compressionSchemeStreamedSnappy, Ms: []vfc13M{{T: mt, N: name, V: value}}}
+								mo.observe(c, ep)
+								txt := LabelMatchersToString(vfc13PromMatchers(ep.Ms))
+								for i := 1; i < len(txt); i++ {
+									if !utf8.RuneStart(txt[i]) {
+										continue
+									}
+									mo.observe(c, vfc13Item{Kind: "P", Comp: compressionSchemeStreamedSnappy, Name: txt[:i], Value: txt[i:]})
+									_, w := utf8.DecodeRuneInString(txt[i:])
+									mo.observe(c, vfc13Item{Kind: "P", Comp: compressionSchemeStreamedSnappy, Name: txt[:i], Value: txt[i+w:]})
+								}
+							}
+						}
+					}
+				}
+			}
+		},
 	}
-	names := []string{"exhaustive:P", "exhaustive:EP", "exhaustive:M", "exhaustive:S", "random+siblings"}
+	names := []string{"exhaustive:P", "exhaustive:EP", "exhaustive:M", "exhaustive:S", "random+siblings", "cross-kind-siblings"}
 	for c, blk := range blocks {
 		if !r.Want(c) {
 			continue
